@@ -630,7 +630,7 @@ theorem digit_plain (c : Char) (h : (digitVal c).isSome = true) : Plain c ∧ c 
   · rintro rfl; exact absurd h (by decide)
   · rintro rfl; exact absurd h (by decide)
   · simp only [isWhite, Bool.decide_or, Bool.or_eq_false_iff, decide_eq_false_iff_not]
-    refine ⟨?_, ?_, ?_, ?_, ?_, ?_⟩ <;> (rintro rfl; exact absurd h (by decide))
+    refine ⟨?_, ?_, ?_, ?_, ?_, ?_, ?_, ?_, ?_, ?_⟩ <;> (rintro rfl; exact absurd h (by decide))
   · rintro rfl; exact absurd h (by decide)
   · rintro rfl; exact absurd h (by decide)
 
